@@ -141,7 +141,7 @@ def rule1(ctx, rep):
             if op.kind in ('todo', 'doing') and op.op in wsa.SHRINK:
                 funcs.setdefault(op.func.qname, []).append(op)
         for q, fops in sorted(funcs.items()):
-            f = prog.func(q)
+            f = prog.nfunc(q)
             rep.analysed(f)
             mv = _moves(prog, f)
             fl = _Prune(prog, f, mv)
@@ -233,7 +233,7 @@ def _formula(e, atoms):
 
 def rule2(ctx, rep):
     prog = ctx.prog
-    f = prog.func('dawgie.pl.schedule.next_job_batch')
+    f = prog.nfunc('dawgie.pl.schedule.next_job_batch')
     rep.analysed(f)
     with rep.rule(
         'R-C04-2',
@@ -314,19 +314,19 @@ def rule3(ctx, rep):
         floor=3,
         breaks='the pipeline reports idle / busy from something else than the queue',
     ) as r:
-        f = prog.func('dawgie.pl.state.FSM.is_todo_done')
+        f = prog.nfunc('dawgie.pl.state.FSM.is_todo_done')
         rep.analysed(f)
         r.instance()
         ws = [n for n in f.own_nodes() if isinstance(n, ast.While)]
         ok = any(wsa.QUE in {prog.resolve_in(x, f) for x in ast.walk(w.test) if isinstance(x, (ast.Name, ast.Attribute))} for w in ws)
         r.check(ok, f'{f.qname}:polls-que', where(f), 'poll loop condition reads schedule.que', 'the queue-empty poller does not read schedule.que')
         for q in ('dawgie.pl.schedule.view_todo', 'dawgie.pl.schedule.view_doing'):
-            g = prog.func(q)
+            g = prog.nfunc(q)
             rep.analysed(g)
             r.instance()
             srcs = {prog.resolve_in(x, g) for x in g.own_nodes() if isinstance(x, (ast.Name, ast.Attribute))}
             r.check(wsa.QUE in srcs, f'{q}:reads-que', where(g), 'view filters schedule.que', f'{q} does not read schedule.que')
-        d = prog.func('dawgie.pl.state.FSM.is_doing_done')
+        d = prog.nfunc('dawgie.pl.state.FSM.is_doing_done')
         rep.analysed(d)
         r.instance()
         ok = any(
@@ -335,7 +335,7 @@ def rule3(ctx, rep):
         )
         r.check(ok, f'{d.qname}:polls-view_doing', where(d), 'poll loop condition reads schedule.view_doing()', 'the nothing-executing poller does not read schedule.view_doing()')
         # view_doing must list a node exactly while it executes something: status running is set by dispatch, reset by complete
-        vd = prog.func('dawgie.pl.schedule.view_doing')
+        vd = prog.nfunc('dawgie.pl.schedule.view_doing')
         r.instance()
         uses_doing = any((gk := get_key(n)) and gk[1] == 'doing' for n in vd.own_nodes())
         r.check(uses_doing, f'{vd.qname}:reports-doing', where(vd), "reports the nodes' doing sets", 'view_doing does not report the doing sets')
